@@ -118,6 +118,10 @@ def step (st : St) (line : String) : St × String :=
   let toks := match splitWs line with
     | ["new", a, b, c, d, o] => if o.startsWith "o" && (parseNats (o.drop 1).toString).isSome then ["new", a, b, c, d] else ["new", a, b, c, d, o]
     | l => l
+  -- a trailing `tot!` = the harness compares the totals of this line only and ends the case (an energy balance with
+  -- negative flows among the streams: what the enthalpy solve does to the phase label is meaningless there)
+  let forceTotals := toks.getLast? == some "tot!"
+  let toks := if forceTotals then toks.dropLast else toks
   -- a trailing `ph:<i>:<letter>` = the phase label stream i ended with after an energy balance (g <-> l flip of the
   -- enthalpy setter: external numerics, reported by the harness)
   let flip : Option (Nat × Char) := match toks.getLast? with
@@ -135,8 +139,8 @@ def step (st : St) (line : String) : St × String :=
   let toks := if eb then toks.dropLast else toks
   -- `vle` / `cp` (vle=True / conserve_phases=True): the phase layout afterwards is the flash's / the setter's business;
   -- the model answers the totals only and the case ends
-  let totalsOnly := toks.getLast? == some "vle" || toks.getLast? == some "cp"
-  let toks := if totalsOnly then toks.dropLast else toks
+  let totalsOnly := forceTotals || toks.getLast? == some "vle" || toks.getLast? == some "cp"
+  let toks := if toks.getLast? == some "vle" || toks.getLast? == some "cp" then toks.dropLast else toks
   let finish (st : St) (r : Except Err World) : St × String :=
     let r := match flip, r with
       | some (i, p), .ok w' => .ok (flipPhase w' i p)
